@@ -8,7 +8,8 @@
      3 an injected fault in a deciding callback fired but the operation did not raise
      4 a raising change handler: outcome differs from the twin's, or another handler's call is missing/extra
      5 the faulted object differs from the twin (now, hence in every follow-up operation)
-     6 without a fired fault outcome and handler calls differ from the twin's *)
+     6 without a fired fault outcome and handler calls differ from the twin's
+     7 handler registrations (sizes of the notifier lists) differ from the twin's *)
 From Coq Require Import ZArith List Bool.
 From TV Require Import Common.LSet Common.Harness C19.Model.
 Import ListNotations.
@@ -35,7 +36,8 @@ Definition st_eqb (a b : st) : bool :=
   && opt_eqb Z.eqb (f a) (f b) && opt_eqb Z.eqb (m a) (m b) && Z.eqb (p a) (p b)
   && opt_eqb Z.eqb (c a) (c b) && Z.eqb (ad a) (ad b).
 
-Record obs := mkObs { o_out : outcome; o_st : st; o_log : list logent }.
+(* o_reg: digest of the sizes of all notifier lists of the object (handler registrations) *)
+Record obs := mkObs { o_out : outcome; o_st : st; o_log : list logent; o_reg : Z }.
 
 Definition hid (e : logent) : nat := fst (fst e).
 
@@ -57,7 +59,8 @@ Definition law_step (before : st) (pl : plan) (fired : bool) (a tw : obs) : list
             | NoFault => outcome_eqb (o_out a) (o_out tw) && log_eqb (o_log a) (o_log tw)
             | FaultCall _ _ => fired || (outcome_eqb (o_out a) (o_out tw) && log_eqb (o_log a) (o_log tw))
             | FaultHandler _ _ => true
-            end).
+            end)
+  ++ chk 7 (Z.eqb (o_reg a) (o_reg tw)).
 
 Definition hstep := (op * plan * bool * obs * obs)%type.
 
